@@ -236,7 +236,7 @@ def run(rep, facts, tier):
     # a key-hash-only change that cannot be resolved is skipped by the DataReader and its number is never handed over (seed C01f was reported by ./check C08 only)
     _report.borrow(rep, facts, tier, 'C08', {'R08.15': 'R01.20'})
     # what the Reader takes for "complete but unusable" (and skips for good) rests on the assembler's answer (after seed C01g)
-    _report.borrow(rep, facts, tier, 'C05', {'R05.18': 'R01.21'})
+    _report.borrow(rep, facts, tier, 'C05', {'R05.18': 'R01.21', 'R05.1': 'R01.22'})
 
     # ------------------------------------------------------------ R01.7 (shared with C14 R14.5)
     from rules import numberset
